@@ -120,7 +120,9 @@ func (i *FSMInstance) Do(event fsm.Event, args ...interface{}) (result *fsm.Resp
 
 	// On route errors result will be nil
 	if result != nil {
-		i.dump.State = result.State
+		// result.State is empty when a callback refused the event before any
+		// transition; the dump must keep describing the machine
+		i.dump.State = i.machine.State()
 
 		dump, dumpErr = i.dump.Marshal()
 		if dumpErr != nil {
